@@ -20,6 +20,10 @@ unknown member of numpy.random / random / datetime raises `Unclassifiable`.
      order_defs every __lt__/__le__/__gt__/__ge__/__cmp__ definition or @total_ordering in a class of the package.
  (f) uninits    every np.empty / np.empty_like / np.ndarray( allocation (uninitialised memory).
  (g) visual_imports   every import of synapgrad.visual outside synapgrad/visual/.
+ (h) empty_uses every CALL of synapgrad.empty (the documented-uninitialised constructor) in the package, with the attribute it
+                is stored in and `initialised` = the translator could establish that an nn.init.*_ call (one that provably
+                replaces `.data` completely) overwrites that attribute on every path on which the allocation happens
+                (guard-context rule, see `EmptyAnalysis`); anything it cannot establish is `false` (fail-safe, like Escape).
 
 The generated Coq file contains only data; its meaning is in coq/IR/Census.v.
 Type annotations are not visited (they are never on the numeric path).
@@ -111,7 +115,7 @@ class FileCensus:
             self.tree = ast.parse(src, filename=rel)
         except SyntaxError as ex:
             raise Unclassifiable("%s: syntax error: %s" % (rel, ex))
-        self.rows = {k: [] for k in ("draws", "set_news", "set_uses", "dicts", "hash_defs", "order_defs", "sorts", "uninits", "visual_imports")}
+        self.rows = {k: [] for k in ("draws", "set_news", "set_uses", "dicts", "hash_defs", "order_defs", "sorts", "uninits", "empty_uses", "visual_imports")}
         self.mod = Scope('module', '<module>', None, self.tree)
         self.tree._scope = self.mod
         self.fn_returns = {}      # module-level function name -> None | 'single' | [bool,...]
@@ -680,6 +684,7 @@ class FileCensus:
             self._visit_watched(node)
             self._visit_sets(node)
             self._visit_misc(node)
+        self.rows["empty_uses"] = EmptyAnalysis(self).rows()
         for k in self.rows:
             self.rows[k].sort(key=lambda r: (r["line"], json.dumps(r, sort_keys=True)))
         return self.rows
@@ -890,6 +895,290 @@ class FileCensus:
                     self.rows["visual_imports"].append(r)
 
 
+# ---------------------------------------------------------------------------------------------- uninitialised memory -> state
+EMPTY_ORIGINS = {"synapgrad.empty", "synapgrad.tensor.empty", "synapgrad.empty_like", "synapgrad.tensor.empty_like"}
+FULL_INITS = set()      # origins "synapgrad.nn.init.<fn>_" of initialisers that replace tensor.data completely (set by extract_all)
+
+
+def full_inits(tree):
+    """functions f(tensor, ...) of nn/init.py that on every normally-returning path execute `tensor.data = <expr>` for their
+    first parameter: an unconditional top-level `tensor.data = ...`, or an unconditional top-level `return g(tensor, ...)` with g
+    already in the set (statements before it may only raise, not return)"""
+    defs = {f.name: f for f in tree.body if isinstance(f, ast.FunctionDef) and f.name.endswith("_") and not f.name.startswith("_") and f.args.args}
+    ok = set()
+    changed = True
+    while changed:
+        changed = False
+        for name, f in defs.items():
+            if name in ok:
+                continue
+            first = f.args.args[0].arg
+            if any(isinstance(n, ast.Name) and n.id == first and isinstance(n.ctx, (ast.Store, ast.Del)) for n in ast.walk(f)):
+                continue
+            for st in f.body:
+                if any(isinstance(n, ast.Return) for n in ast.walk(st)) and not isinstance(st, ast.Return):
+                    break                                   # an early return under a condition: cannot establish
+                if isinstance(st, ast.Assign) and len(st.targets) == 1 and isinstance(st.targets[0], ast.Attribute) and \
+                        st.targets[0].attr == "data" and isinstance(st.targets[0].value, ast.Name) and st.targets[0].value.id == first:
+                    ok.add(name); changed = True
+                    break
+                if isinstance(st, ast.Return):
+                    v = st.value
+                    if isinstance(v, ast.Call) and isinstance(v.func, ast.Name) and v.func.id in ok and v.args and \
+                            isinstance(v.args[0], ast.Name) and v.args[0].id == first:
+                        ok.add(name); changed = True
+                    break
+    return {"synapgrad.nn.init." + n for n in ok}
+
+
+class EmptyAnalysis:
+    """For every call of synapgrad.empty: is the result overwritten on every path?
+
+    Accepted shape (everything else is `initialised = false`):
+      * the call is in the body of `C.__init__` (not in a nested function, not under a loop), in a statement
+            self.X = [nn.Parameter(] synapgrad.empty(...) [)]          or
+            v = synapgrad.empty(...)   followed, as the next statement of the same block that mentions v, by
+            self.X = [nn.Parameter(] v [)]
+      * an INITIALISING EVENT for X:  `<full init>(self.X, ...)`  (a function of nn/init.py in FULL_INITS) or `self.X.data = ...`,
+        located in `__init__` after the allocation or in a method of C reached from `__init__` after the allocation through
+        `self.m()` calls (depth <= 3; m defined in C, not overridden by a subclass in the file), with no `return` in between;
+      * GUARD-CONTEXT RULE: every guard on the way to the event (the `if` tests enclosing the call site(s) and the event) must be a
+        fact established by the allocation's own guard context.  Guards are normalised:
+            `P` / `self.P`          -> flag:P      (P a constructor parameter that is never rebound; `self.P` only if `self.P = P`
+                                                    is an unconditional top-level statement of __init__ executed before, and the
+                                                    only assignment to .P in the class)
+            `self.X is not None`    -> notnone:X   (a fact for the allocated attribute X itself; `is None` is its negation)
+            `not g`                 -> negation
+            anything else           -> opaque, identified with that very `if` statement (so only an enclosing `if` of the
+                                       allocation itself matches)
+        Facts of the allocation = its own guard elements + notnone:X.  An event under a guard that is not such a fact (r3m1:
+        buffers allocated under `if self.track_running_stats`, reset only under `if affine`) does not count.
+    """
+
+    def __init__(self, fc):
+        self.fc = fc
+
+    def is_empty_call(self, n):
+        if not isinstance(n, ast.Call) or not hasattr(n, "_scope"):
+            return False
+        o = self.fc.origin(n.func)
+        if o in EMPTY_ORIGINS:
+            return True
+        if self.fc.rel == "tensor.py" and isinstance(n.func, ast.Name) and n.func.id in ("empty", "empty_like"):
+            r = self.fc.resolve(n.func.id, n._scope)
+            return r is not None and r[0].kind == "module" and any(k == "def" for k, _ in r[1])
+        return False
+
+    def rows(self):
+        fc = self.fc
+        calls = [n for n in ast.walk(fc.tree) if self.is_empty_call(n)]
+        out = []
+        classes = [n for n in ast.walk(fc.tree) if isinstance(n, ast.ClassDef)]
+        for call in calls:
+            s = call._scope
+            while s.kind == "comp":
+                s = s.parent
+            row = {"file": fc.rel, "line": call.lineno, "func": fc.func_of(call), "attr": "", "initialised": False, "how": ""}
+            cls = None
+            if s.kind == "function" and s.name == "__init__" and s.parent is not None and s.parent.kind == "class":
+                cls = s.parent.node
+            if cls is None:
+                row["how"] = "not in the body of a constructor"
+            else:
+                ok, attr, how = self.judge(cls, s.node, call, classes)
+                row.update({"attr": attr, "initialised": ok, "how": how})
+            out.append(row)
+        return out
+
+    # -- guard paths -----------------------------------------------------------------------------------------
+    def walk(self, stmts, path, ctx, acc):
+        """acc += (stmt, path, block) for every statement; nested defs/classes are not entered"""
+        for st in stmts:
+            acc.append((st, path, stmts))
+            if isinstance(st, ast.If):
+                key, pol = self.norm(st.test, ctx, st)
+                self.walk(st.body, path + [(key, pol)], ctx, acc)
+                self.walk(st.orelse, path + [(key, not pol)], ctx, acc)
+            elif isinstance(st, (ast.For, ast.AsyncFor, ast.While)):
+                self.walk(st.body, path + [("loop:%d" % id(st), True)], ctx, acc)
+                self.walk(st.orelse, path + [("loop:%d" % id(st), False)], ctx, acc)
+            elif isinstance(st, (ast.With, ast.AsyncWith)):
+                self.walk(st.body, path, ctx, acc)
+            elif isinstance(st, ast.Try):
+                self.walk(st.body, path + [("try:%d" % id(st), True)], ctx, acc)
+                for h in st.handlers:
+                    self.walk(h.body, path + [("except:%d" % id(h), True)], ctx, acc)
+                self.walk(st.orelse, path + [("try:%d" % id(st), True)], ctx, acc)
+                self.walk(st.finalbody, path, ctx, acc)
+            elif isinstance(st, ast.Match) if hasattr(ast, "Match") else False:
+                acc.append((st, path + [("opaque:%d" % id(st), True)], stmts))
+
+    def norm(self, test, ctx, owner):
+        selfname, flags_param, flags_attr, line_ok = ctx
+        if isinstance(test, ast.UnaryOp) and isinstance(test.op, ast.Not):
+            k, p = self.norm(test.operand, ctx, owner)
+            return (k, not p) if not k.startswith("opaque:") else ("opaque:%d" % id(owner), True)
+        if isinstance(test, ast.Name) and test.id in flags_param:
+            return "flag:" + test.id, True
+        if isinstance(test, ast.Attribute) and isinstance(test.value, ast.Name) and test.value.id == selfname and \
+                test.attr in flags_attr and line_ok(test.attr, test.lineno):
+            return "flag:" + test.attr, True
+        if isinstance(test, ast.Compare) and len(test.ops) == 1 and isinstance(test.ops[0], (ast.Is, ast.IsNot)) and \
+                isinstance(test.comparators[0], ast.Constant) and test.comparators[0].value is None and \
+                isinstance(test.left, ast.Attribute) and isinstance(test.left.value, ast.Name) and test.left.value.id == selfname:
+            return "notnone:" + test.left.attr, isinstance(test.ops[0], ast.IsNot)
+        return "opaque:%d" % id(owner), True
+
+    @staticmethod
+    def self_attr(e, selfname):
+        if isinstance(e, ast.Attribute) and isinstance(e.value, ast.Name) and e.value.id == selfname:
+            return e.attr
+        return None
+
+    def unwrap(self, v):
+        """synapgrad.empty(...) possibly wrapped in nn.Parameter( ) -> the inner expression"""
+        if isinstance(v, ast.Call) and len(v.args) >= 1 and (self.fc.origin(v.func) or "").endswith(".Parameter"):
+            return v.args[0]
+        return v
+
+    def judge(self, cls, init, call, classes):
+        fc = self.fc
+        if not init.args.args:
+            return False, "", "constructor without self"
+        selfname = init.args.args[0].arg
+        params = [a.arg for a in init.args.posonlyargs + init.args.args + init.args.kwonlyargs][1:]
+        never_rebound = {p for p in params if [k for k, _ in init._inner.bindings.get(p, [])] == ["param"]}
+        # self.P = P at the top level of __init__, the only assignment to .P anywhere in the class
+        attr_assigns = {}
+        for m in cls.body:
+            if isinstance(m, (ast.FunctionDef, ast.AsyncFunctionDef)) and m.args.args:
+                sn = m.args.args[0].arg
+                for n in ast.walk(m):
+                    tg = []
+                    if isinstance(n, ast.Assign):
+                        tg = n.targets
+                    elif isinstance(n, (ast.AugAssign, ast.AnnAssign)):
+                        tg = [n.target]
+                    for t in tg:
+                        for e in (t.elts if isinstance(t, (ast.Tuple, ast.List)) else [t]):
+                            a = self.self_attr(e, sn)
+                            if a is not None:
+                                attr_assigns[a] = attr_assigns.get(a, 0) + 1
+                    if isinstance(n, ast.Call) and (fc.origin(n.func) in ("builtin.setattr",) or
+                                                    (isinstance(n.func, ast.Attribute) and n.func.attr in ("__setattr__", "__dict__"))):
+                        attr_assigns["*"] = 1
+        link_line = {}
+        for st in init.body:
+            if isinstance(st, ast.Assign) and len(st.targets) == 1 and isinstance(st.value, ast.Name) and st.value.id in never_rebound:
+                a = self.self_attr(st.targets[0], selfname)
+                if a is not None and attr_assigns.get(a) == 1 and "*" not in attr_assigns:
+                    link_line[a] = (st.lineno, st.value.id)
+        flags_attr = {a for a, (ln, pname) in link_line.items() if a == pname}
+        ctx_init = (selfname, never_rebound, flags_attr, lambda a, line: link_line[a][0] < line)
+        acc = []
+        self.walk(init.body, [], ctx_init, acc)
+        by_id = {id(st): (path, block) for st, path, block in acc}
+        sa = fc._stmt_of(call)
+        if id(sa) not in by_id:
+            return False, "", "allocation inside a nested function"
+        path_a, block_a = by_id[id(sa)]
+        if any(k.startswith(("loop:", "try:", "except:")) for k, _ in path_a):
+            return False, "", "allocation under a loop / try"
+        # ---- which attribute receives it
+        attr, attr_line = None, None
+        if isinstance(sa, ast.Assign) and len(sa.targets) == 1 and self.unwrap(sa.value) is call:
+            t = sa.targets[0]
+            if self.self_attr(t, selfname) is not None:
+                attr, attr_line = self.self_attr(t, selfname), sa.lineno
+            elif isinstance(t, ast.Name):
+                v = t.id
+                for st in block_a[block_a.index(sa) + 1:]:
+                    if any(isinstance(n, ast.Name) and n.id == v for n in ast.walk(st)):
+                        if isinstance(st, ast.Assign) and len(st.targets) == 1 and self.self_attr(st.targets[0], selfname) is not None:
+                            u = self.unwrap(st.value)
+                            if isinstance(u, ast.Name) and u.id == v:
+                                attr, attr_line = self.self_attr(st.targets[0], selfname), st.lineno
+                        break
+        if attr is None:
+            return False, "", "result is not stored directly in an attribute of self"
+        facts = set(path_a) | {("notnone:" + attr, True)}
+        # ---- initialising events
+        returns_init = sorted(n.lineno for st, _, _ in acc for n in [st] if isinstance(n, ast.Return))
+        events = []
+        self.events(cls, init, selfname, acc, [], None, 0, classes, events, ctx_init, flags_attr, link_line)
+        reasons = []
+        for (a, path, site_line, text, ret_ok) in events:
+            if a != attr or site_line <= attr_line:
+                continue
+            if not ret_ok or any(attr_line < r < site_line for r in returns_init):
+                reasons.append("%s: a return may precede it" % text)
+                continue
+            missing = [g for g in path if g not in facts]
+            if missing:
+                reasons.append("%s is guarded by %s which the allocation's context %s does not establish"
+                               % (text, self.show(missing), self.show(sorted(facts))))
+                continue
+            return True, attr, text
+        return False, attr, "; ".join(reasons)[:240] or "no nn.init call on self.%s after the allocation" % attr
+
+    @staticmethod
+    def show(path):
+        return "[" + ", ".join(("" if p else "not ") + (k.split(":")[0] + ":" + k.split(":")[1] if not k.startswith(("opaque", "loop", "try", "except")) else k.split(":")[0])
+                               for k, p in path) + "]"
+
+    def events(self, cls, fn, selfname, acc, prefix, site_line, depth, classes, out, ctx, flags_attr, link_line):
+        fc = self.fc
+        methods = {m.name: m for m in cls.body if isinstance(m, (ast.FunctionDef, ast.AsyncFunctionDef))}
+        returns = sorted(st.lineno for st, _, _ in acc if isinstance(st, ast.Return))
+        for st, path, _ in acc:
+            line = site_line if site_line is not None else st.lineno
+            ret_ok = not any(r < st.lineno for r in returns) if site_line is not None else True
+            full = prefix + path
+            if any(k.startswith(("loop:", "except:")) for k, _ in path):
+                continue
+            if isinstance(st, ast.Assign) and len(st.targets) == 1 and isinstance(st.targets[0], ast.Attribute) and st.targets[0].attr == "data":
+                a = self.self_attr(st.targets[0].value, selfname)
+                if a is not None:
+                    out.append((a, full, line, "self.%s.data = ... (line %d)" % (a, st.lineno), ret_ok))
+            c = st.value if isinstance(st, ast.Expr) else (st.value if isinstance(st, ast.Return) else None)
+            if not isinstance(c, ast.Call):
+                continue
+            o = fc.origin(c.func)
+            if o in FULL_INITS and c.args:
+                a = self.self_attr(c.args[0], selfname)
+                if a is not None:
+                    out.append((a, full, line, "%s(self.%s) in %s.%s (line %d)" % (U(c.func), a, cls.name, fn.name, st.lineno), ret_ok))
+            m = self.self_attr(c.func, selfname)
+            if m is not None and m in methods and depth < 3:
+                overridden = any(m in {x.name for x in k.body if isinstance(x, (ast.FunctionDef, ast.AsyncFunctionDef))}
+                                 for k in classes if k is not cls and self.subclass_of(k, cls, classes))
+                callee = methods[m]
+                if overridden or not callee.args.args or callee.decorator_list:
+                    continue
+                sn = callee.args.args[0].arg
+                cctx = (sn, set(), flags_attr, lambda a, ln: True)
+                if site_line is None and any(link_line[a][0] >= st.lineno for a in flags_attr):
+                    cctx = (sn, set(), {a for a in flags_attr if link_line[a][0] < st.lineno}, lambda a, ln: True)
+                cacc = []
+                self.walk(callee.body, [], cctx, cacc)
+                sub = []
+                self.events(cls, callee, sn, cacc, full, line, depth + 1, classes, sub, cctx, cctx[2], link_line)
+                out.extend((a, p, l, t, r and ret_ok) for a, p, l, t, r in sub)
+
+    def subclass_of(self, k, cls, classes, depth=0):
+        if depth > 6:
+            return False
+        for b in k.bases:
+            if isinstance(b, ast.Name):
+                if b.id == cls.name:
+                    return True
+                for k2 in classes:
+                    if k2.name == b.id and k2 is not k and self.subclass_of(k2, cls, classes, depth + 1):
+                        return True
+        return False
+
+
+
 def watched_root(o):
     """split a dotted origin into (watched root, remaining attribute path) or None"""
     parts = o.split(".")
@@ -954,10 +1243,18 @@ def package_files():
 
 def extract_all():
     root, files = package_files()
-    census = {k: [] for k in ("draws", "set_news", "set_uses", "dicts", "hash_defs", "order_defs", "sorts", "uninits", "visual_imports")}
+    census = {k: [] for k in ("draws", "set_news", "set_uses", "dicts", "hash_defs", "order_defs", "sorts", "uninits", "empty_uses", "visual_imports")}
     census["files"] = files
     census["seed_body"] = None
     census["seed_exported"] = False
+    FULL_INITS.clear()
+    ip = os.path.join(root, "nn", "init.py")
+    if os.path.exists(ip):
+        try:
+            FULL_INITS.update(full_inits(ast.parse(open(ip, encoding="utf8").read())))
+        except SyntaxError as ex:
+            raise Unclassifiable("nn/init.py: syntax error: %s" % ex)
+    census["full_inits"] = sorted(FULL_INITS)
     for rel in files:
         src = open(os.path.join(root, rel), encoding="utf8").read()
         pk = ["synapgrad"] + rel.split(os.sep)[:-1]
@@ -974,7 +1271,7 @@ def extract_all():
                     census["seed_exported"] = True
     if census["seed_body"] is None:
         raise Unclassifiable("synapgrad/utils.py not found")
-    for k in ("draws", "set_news", "set_uses", "dicts", "hash_defs", "order_defs", "sorts", "uninits", "visual_imports"):
+    for k in ("draws", "set_news", "set_uses", "dicts", "hash_defs", "order_defs", "sorts", "uninits", "empty_uses", "visual_imports"):
         for r in census[k]:
             if not (0 < r["line"] < 5000):
                 raise Unclassifiable("%s:%d line number out of the supported range" % (r["file"], r["line"]))
@@ -1019,6 +1316,8 @@ def emit(c):
         ["mkHashDef %s %d %s %s" % (cs(r["file"]), r["line"], cs(r["func"]), cs(r["method"])) for r in c["order_defs"]]))
     out.append("Definition uninits : list site := %s.\n" % clist(
         ["mkSite %s %d %s %s" % (cs(r["file"]), r["line"], cs(r["func"]), cs(r["callee"])) for r in c["uninits"]]))
+    out.append("Definition empty_uses : list empty_use := %s.\n" % clist(
+        ["mkEmptyUse %s %d %s %s %s %s" % (cs(r["file"]), r["line"], cs(r["func"]), cs(r["attr"]), cbool(r["initialised"]), cs(r["how"])) for r in c["empty_uses"]]))
     out.append("Definition visual_imports : list site := %s.\n" % clist(
         ["mkSite %s %d %s %s" % (cs(r["file"]), r["line"], cs(r["func"]), cs(r["name"])) for r in c["visual_imports"]]))
     out.append("Definition seed_body : list seed_stmt := %s.\n" % clist(
@@ -1035,7 +1334,7 @@ def generate():
     except Exception as ex:
         # never leave a stale census behind: an empty one (no exported manual_seed, no rows) makes the obligations of
         # Props/C19.v fail (manual_seed_seeds_both, the non-vacuity examples) until the source can be classified again
-        empty = {k: [] for k in ("files", "draws", "set_news", "set_uses", "dicts", "hash_defs", "order_defs", "sorts", "uninits", "visual_imports", "seed_body")}
+        empty = {k: [] for k in ("files", "draws", "set_news", "set_uses", "dicts", "hash_defs", "order_defs", "sorts", "uninits", "empty_uses", "visual_imports", "seed_body")}
         empty["seed_exported"] = False
         common.write_if_changed(gen, "(* TRANSLATOR FAILED (fail-closed): %s *)\n" % str(ex).replace("*)", "* )").replace("(*", "( *") + emit(empty))
         try:
